@@ -224,15 +224,17 @@ class Problem:
                 'two_single': np.float32}.get(self.blob, None)
 
     def pure(self, arg):
-        """(log_l, blob tuple or None) for ONE row - the reference."""
+        """(log_l, blob tuple or None) for ONE row - the reference (with the
+        keyword arguments the sampler was configured with)."""
         z = self.z_of(arg)
-        ll = float(self.loglike_cols(z))
+        ll = float(self.loglike_cols(z) + self.spec.get('tilt', 0.0) * z[0])
         return ll, self.blob_cols(z, True)
 
-    def __call__(self, arg):
+    def __call__(self, arg, tilt=0.0):
+        # `tilt` is only ever supplied through Sampler(likelihood_kwargs=...)
         z = self.z_of(arg)
         scalar = np.ndim(z[0]) == 0
-        ll = self.loglike_cols(z)
+        ll = self.loglike_cols(z) + tilt * z[0]
         blobs = self.blob_cols(z, scalar)
         n = 1 if scalar else len(np.atleast_1d(ll))
         self.n_calls += 1
@@ -377,6 +379,10 @@ def problem_specs(draw, d=None, families=None, blobs=None, priors=None):
     if fam == 'slab':
         p['slab_w'] = draw(st.sampled_from([0.005, 0.03]))
     spec['params'] = p
+    # extra keyword argument of the likelihood (likelihood_kwargs)
+    tilt = draw(st.sampled_from([0.0, 0.0, 1.5, -2.0]))
+    if tilt:
+        spec['tilt'] = tilt
     if spec['prior'] != 'identity':
         spec['scale'] = [draw(st.sampled_from([1.0, 2.0, 0.5]))
                          for _ in range(d)]
